@@ -240,3 +240,52 @@ Proof.
   intro H. unfold read_archive, write_archive. apply read_entries_written; [exact H|].
   rewrite app_length. pose proof (written_length es 0). lia.
 Qed.
+
+(* ================= tar2sqfs --root-becomes link retargeting (fix F21) ================= *)
+(* a target that is not below the new root is stored untouched *)
+Lemma is_prefix_firstn root : forall c, is_prefix root c = true -> firstn (length root) c = root.
+Proof.
+  induction root as [|a root IH]; intros c P; [reflexivity|].
+  destruct c as [|b c]; [discriminate|]. cbn [is_prefix] in P. apply andb_prop in P. destruct P as [P1 P2].
+  apply N.eqb_eq in P1. subst. cbn [length firstn]. f_equal. apply IH. exact P2.
+Qed.
+
+Lemma retarget_untouched root link :
+  (forall r, canon_result link <> Some (root ++ 47 :: r)) -> retarget root link = link.
+Proof.
+  intro H. unfold retarget. unfold canon_result in H.
+  destruct (canon_model link) as [c| |]; try reflexivity.
+  destruct (is_prefix root c) eqn:P; [|reflexivity].
+  destruct (skipn (length root) c) as [|x r] eqn:S; [reflexivity|].
+  destruct (x =? 47) eqn:Ex; [|reflexivity]. apply N.eqb_eq in Ex. subst x.
+  exfalso. apply (H r). f_equal.
+  rewrite <- (firstn_skipn (length root) c) at 1. rewrite S. f_equal. apply is_prefix_firstn. exact P.
+Qed.
+
+(* a target below the new root is made absolute inside the image *)
+Lemma retarget_prefixed root link r :
+  canon_result link = Some (root ++ 47 :: r) -> retarget root link = 47 :: r.
+Proof.
+  intro H. unfold retarget. unfold canon_result in H.
+  destruct (canon_model link) as [c| |]; try discriminate. injection H as ->.
+  rewrite is_prefix_app. rewrite skipn_app_exact by reflexivity. reflexivity.
+Qed.
+
+(* the unpatched code: the half-rewritten buffer of a refused canonicalisation
+   is stored ("./a/../b" becomes "a/a/../b"), and an absolute target outside
+   the new root loses its leading slash ("/etc/x" becomes "etc/x") *)
+Lemma retarget_old_refuted :
+  exists root link, (forall r, canon_result link <> Some (root ++ 47 :: r)) /\ retarget_old root link <> link.
+Proof.
+  exists [114], [46;47;97;47;46;46;47;98]. split.
+  - intros r. vm_compute. discriminate.
+  - vm_compute. discriminate.
+Qed.
+
+Lemma retarget_old_refuted_abs :
+  exists root link, (forall r, canon_result link <> Some (root ++ 47 :: r)) /\ retarget_old root link <> link.
+Proof.
+  exists [114], [47;101;116;99]. split.
+  - intros r. vm_compute. intro H. discriminate.
+  - vm_compute. discriminate.
+Qed.
